@@ -2,6 +2,7 @@ package rules
 
 import (
 	"fmt"
+	"go/constant"
 	"go/token"
 	"go/types"
 	"sort"
@@ -17,6 +18,7 @@ func init() {
 	const fw = "app/eth2wrap/eth2wrap.go"
 	const fg = "app/eth2wrap/eth2wrap_gen.go"
 	const fm = "app/eth2wrap/multi.go"
+	const ff = "app/forkjoin/forkjoin.go"
 	Register(&Prop{
 		ID: "C19",
 		Decides: "app/eth2wrap multi client: (Y1) the fork-join of provide (created in a literal of provide or in an in-package function provide calls once per node list) is created on the caller's context without fail-fast, " +
@@ -104,6 +106,28 @@ func init() {
 				Old: "_, err := provide(ctx, clients, fallbacks,", New: "_, err := provide(ctx, clients, nil,"},
 			{ID: "C19-Y3-submit-error-dropped", File: fw, Expect: "Y3|submit",
 				Old: "\t\t\treturn empty{}, work(ctx, args)\n", New: "\t\t\t_ = work(ctx, args)\n\n\t\t\treturn empty{}, nil\n"},
+			// Y5
+			{ID: "C19-Y5-cancel-on-any-error", File: ff, Expect: "Y5|worker cancels",
+				Old: "if options.failFast && err != nil { // Maybe fail fast", New: "if err != nil { // Maybe fail fast"},
+			{ID: "C19-Y5-cancel-or", File: ff, Expect: "Y5|worker cancels",
+				Old: "if options.failFast && err != nil {", New: "if options.failFast || err != nil {"},
+			{ID: "C19-Y5-cancel-on-ctx-class", File: ff, Expect: "Y5|worker cancels",
+				Old: "if options.failFast && err != nil {", New: "if err != nil && (options.failFast || errors.Is(err, context.DeadlineExceeded)) {"},
+			{ID: "C19-Y5-withoutfailfast-noop", File: ff, Expect: "Y5|WithoutFailFast",
+				Old: "\t\to.failFast = false\n", New: "\t\to.failFast = defaultFailFast\n"},
+			{ID: "C19-Y5-withworkers-ignored", File: ff, Expect: "Y5|WithWorkers",
+				Old: "\t\to.workers = w\n", New: "\t\to.workers = defaultWorkers\n"},
+			{ID: "C19-Y5-default-worker-count", File: ff, Expect: "Y5|starts options.workers",
+				Old: "for range options.workers { // Start workers", New: "for range defaultWorkers { // Start workers"},
+			// Y6
+			{ID: "C19-Y6-apierr-assert", File: fw, Expect: "Y6|isBadGateway",
+				Old: "\t\tvar apiErr *eth2api.Error\n\t\tif errors.As(current, &apiErr) {", New: "\t\tif apiErr, ok := current.(*eth2api.Error); ok {"},
+			{ID: "C19-Y6-neterr-assert", File: fw, Expect: "Y6|isBadGateway",
+				Old: "\t\tvar netErr net.Error\n\t\tif errors.As(current, &netErr) {", New: "\t\tif _, ok := current.(net.Error); ok {"},
+			{ID: "C19-Y6-errno-assert", File: fw, Expect: "Y6|isBadGateway",
+				Old: "if errno := new(syscall.Errno); errors.As(current, errno) {\n\t\t\tswitch *errno {", New: "if errno, ok := current.(syscall.Errno); ok {\n\t\t\tswitch errno {"},
+			{ID: "C19-Y6-sentinel-compare", File: fw, Expect: "Y6|isBadGateway",
+				Old: "if errors.Is(current, http.ErrAbortHandler) {", New: "if current == http.ErrAbortHandler {"},
 			// Y4
 			{ID: "C19-Y4-first-client-directly", File: fg, Expect: "Y4|AttestationData",
 				Old: "return args.client.AttestationData(ctx, opts)", New: "return m.clients[0].AttestationData(ctx, opts)"},
@@ -660,6 +684,7 @@ type c19Shape struct {
 	list                                    *ssa.Parameter // run's own node-list parameter
 	listIdx                                 int
 	runCalls                                []*ssa.Call // the calls of run made by provide itself
+	loopBind                                map[*ssa.Parameter]ssa.Value // parameters of the function holding the result loop -> arguments in run
 	strayCalls                              []ssa.CallInstruction
 }
 
@@ -777,6 +802,10 @@ func (s *c19Shape) expand(base []ssa.Value) []ssa.Value {
 	}
 	var out []ssa.Value
 	for _, o := range base {
+		if vals := s.paramStructField(o); vals != nil {
+			out = append(out, vals...)
+			continue
+		}
 		p, ok := o.(*ssa.Parameter)
 		if !ok || p.Parent() != s.run || p == s.list {
 			out = append(out, o)
@@ -793,6 +822,94 @@ func (s *c19Shape) expand(base []ssa.Value) []ssa.Value {
 		}
 		for range s.strayCalls {
 			out = append(out, nil) // unknown argument
+		}
+	}
+	return out
+}
+
+// paramStructField follows a read of a field of a parameter object (`r.ctx` where run is a method / function
+// taking a struct of parameters that provide fills in a literal): the values provide stored into that field.
+func (s *c19Shape) paramStructField(o ssa.Value) []ssa.Value {
+	var base ssa.Value
+	field := -1
+	switch x := o.(type) {
+	case *ssa.UnOp:
+		if fa, ok := x.X.(*ssa.FieldAddr); ok && x.Op == token.MUL {
+			base, field = fa.X, fa.Field
+		}
+	case *ssa.Field:
+		base, field = x.X, x.Field
+	}
+	if base == nil {
+		return nil
+	}
+	// the object: a parameter of run (possibly spilled to a local)
+	var params []*ssa.Parameter
+	cands := []ssa.Value{base}
+	if al, ok := base.(*ssa.Alloc); ok {
+		cands = c19StoresTo(al, 0)
+	}
+	for _, cnd := range cands {
+		for _, b := range c19Subst(c19Origins(cnd), s.loopBind, 0) {
+			if al, isAl := b.(*ssa.Alloc); isAl { // the object spilled to a local of run
+				if st := c19StoresTo(al, 0); len(st) == 1 {
+					if os := c19Origins(st[0]); len(os) == 1 {
+						b = os[0]
+					}
+				}
+			}
+			p, ok := b.(*ssa.Parameter)
+			if !ok || p.Parent() != s.run {
+				return nil
+			}
+			params = append(params, p)
+		}
+	}
+	if len(params) == 0 {
+		return nil
+	}
+	var out []ssa.Value
+	for _, p := range params {
+		idx := -1
+		for i, q := range s.run.Params {
+			if q == p {
+				idx = i
+			}
+		}
+		if idx < 0 || len(s.strayCalls) > 0 {
+			return nil
+		}
+		for _, rc := range s.runCalls {
+			a := an.Unwrap(rc.Call.Args[idx])
+			if ld, ok := a.(*ssa.UnOp); ok && ld.Op == token.MUL {
+				a = ld.X
+			}
+			al, ok := a.(*ssa.Alloc)
+			if !ok || al.Referrers() == nil {
+				return nil
+			}
+			n := 0
+			for _, ref := range *al.Referrers() {
+				switch r := ref.(type) {
+				case *ssa.Store:
+					if r.Addr == ssa.Value(al) {
+						return nil // whole-object assignment: not followed
+					}
+				case *ssa.FieldAddr:
+					if r.Field != field {
+						continue
+					}
+					for _, r2 := range *r.Referrers() {
+						if st, ok := r2.(*ssa.Store); ok && st.Addr == ssa.Value(r) {
+							out = append(out, c19Origins(st.Val)...)
+							n++
+						}
+					}
+				}
+			}
+			if n == 0 {
+				return nil
+			}
 		}
 	}
 	return out
@@ -857,6 +974,8 @@ func c19(c *rt.Ctx) {
 	c.Rule("Y2", 6, func() { c19Y2(c) })
 	c.Rule("Y3", 9, func() { c19Y3(c) })
 	c.Rule("Y4", 55, func() { c19Y4(c) })
+	c.Rule("Y5", 4, func() { c19Y5(c) })
+	c.Rule("Y6", 3, func() { c19Y6(c) })
 }
 
 func c19Y1(c *rt.Ctx) {
@@ -1055,6 +1174,8 @@ func c19LoopFromStart(l *an.Loop) bool {
 type c19Loop struct {
 	hdr, body, exit *ssa.BasicBlock
 	elem            ssa.Value // the Result received in this iteration
+	fn              *ssa.Function // the function holding the loop: run, or an in-package function run hands join() to
+	call            *ssa.Call     // the call of fn in run (nil when fn == run)
 }
 
 func c19ResultLoop(c *rt.Ctx, s *c19Shape) c19Loop {
@@ -1075,9 +1196,38 @@ func c19ResultLoop(c *rt.Ctx, s *c19Shape) c19Loop {
 		c.Bail("no call of join in runForkJoin")
 	}
 	var out c19Loop
+	out.fn = s.run
+	var chanv ssa.Value = results
+	// the loop may live in an in-package function that run hands the result channel to
+	hasRecv := false
 	for _, in := range an.Instrs(s.run, false) {
+		if rc, ok := in.(*ssa.UnOp); ok && rc.Op == token.ARROW && c19Only(rc.X, results) {
+			hasRecv = true
+		}
+	}
+	if !hasRecv {
+		for _, in := range an.Instrs(s.run, false) {
+			call, ok := in.(*ssa.Call)
+			if !ok || call.Call.IsInvoke() {
+				continue
+			}
+			g := an.Orig(call.Call.StaticCallee())
+			if g == nil || g.Pkg != s.run.Pkg || len(g.Blocks) == 0 || len(g.Params) != len(call.Call.Args) {
+				continue
+			}
+			for i, a := range call.Call.Args {
+				if c19Only(a, results) {
+					if out.call != nil {
+						c.Bail("the join results are handed to more than one function")
+					}
+					out.fn, out.call, chanv = g, call, g.Params[i]
+				}
+			}
+		}
+	}
+	for _, in := range an.Instrs(out.fn, false) {
 		rc, ok := in.(*ssa.UnOp)
-		if !ok || rc.Op != token.ARROW || !c19Only(rc.X, results) {
+		if !ok || rc.Op != token.ARROW || !c19Only(rc.X, chanv) {
 			continue
 		}
 		if out.hdr != nil || !rc.CommaOk {
@@ -1101,12 +1251,12 @@ func c19ResultLoop(c *rt.Ctx, s *c19Shape) c19Loop {
 		if tested != okv {
 			c.Bail("the loop receiving the join results is not controlled by the channel's ok flag")
 		}
-		out = c19Loop{hdr: rc.Block(), body: rc.Block().Succs[trueIdx], exit: rc.Block().Succs[1-trueIdx], elem: elem}
+		out.hdr, out.body, out.exit, out.elem = rc.Block(), rc.Block().Succs[trueIdx], rc.Block().Succs[1-trueIdx], elem
 	}
 	if out.hdr == nil {
 		c.Bail("no loop over the join results found in runForkJoin")
 	}
-	if !out.hdr.Dominates(out.body) || !out.hdr.Dominates(out.exit) || out.body == out.exit {
+	if !out.hdr.Dominates(out.body) || len(out.body.Preds) != 1 || out.body == out.exit {
 		c.Bail("unexpected shape of the loop over the join results")
 	}
 	return out
@@ -1115,9 +1265,22 @@ func c19ResultLoop(c *rt.Ctx, s *c19Shape) c19Loop {
 // resField: v reads field `name` of the Result received in this iteration (w: the walker's frame when the
 // read happens inside a followed helper).
 func (l c19Loop) resField(w *c19Walker, v ssa.Value, name string) bool {
+	if w != nil {
+		v = w.res(v)
+	}
 	key, base, ok := c19FieldRead(v)
 	if !ok || !c19ResultKey(key, name) {
 		return false
+	}
+	if w != nil {
+		if rb := w.res(base); rb != nil {
+			base = rb
+		}
+		if al, isAl := base.(*ssa.Alloc); isAl {
+			if hv := w.holds(al); hv != nil {
+				base = hv
+			}
+		}
 	}
 	if base == l.elem {
 		return true
@@ -1154,6 +1317,9 @@ func (l c19Loop) resField(w *c19Walker, v ssa.Value, name string) bool {
 			break
 		}
 		if b != base && l.copyOfCur(b) {
+			if b.(*ssa.Alloc).Block() == l.hdr {
+				return true
+			}
 			for _, pb := range w.path {
 				if pb == b.(*ssa.Alloc).Block() {
 					return true
@@ -1186,8 +1352,9 @@ func (l c19Loop) perIteration(al *ssa.Alloc) bool {
 	return al.Block() == l.hdr || l.inLoop(al.Block())
 }
 
-func (l c19Loop) inLoop(b *ssa.BasicBlock) bool { return l.body.Dominates(b) }
-func (l c19Loop) after(b *ssa.BasicBlock) bool  { return l.exit.Dominates(b) && !l.body.Dominates(b) }
+func (l c19Loop) inLoop(b *ssa.BasicBlock) bool {
+	return b.Parent() == l.body.Parent() && l.body.Dominates(b)
+}
 
 // ---------------------------------------------------------------------------------------------
 // Path exploration under a valuation of atomic conditions (used by Y2 and Y3): the CFG region is
@@ -1208,6 +1375,173 @@ type c19Walker struct {
 	depth   int
 	steps   int
 	pre     func(w *c19Walker, v ssa.Value) (val bool, ok bool) // optional: decides a condition directly (before the atoms)
+	// continuation: the walk started in a callee (the function holding the result loop) goes on in the caller
+	// behind call cont when a return of contFn is reached; retvals are the values returned on the path walked
+	cont    *ssa.Call
+	contFn  *ssa.Function
+	retvals []ssa.Value
+	// variable cells: a load is resolved to the last store on the path walked; a cell that no path from one
+	// receive to the next stores into (dirty == false) still holds its value from before the loop
+	dirty map[ssa.Value]bool
+	post  map[*ssa.BasicBlock]bool // blocks behind the start of the walk
+}
+
+// res resolves v along the path walked so far: phis by the edge taken, results of the followed callee by the
+// values returned, loads of local variable cells by the last store on the path (or the value from before the loop).
+func (w *c19Walker) res(v ssa.Value) ssa.Value {
+	seenPhi := map[*ssa.Phi]bool{}
+	for i := 0; i < 12 && v != nil; i++ {
+		v = an.Unwrap(v)
+		switch x := v.(type) {
+		case *ssa.Phi:
+			if e := w.phiEdge(x); e != nil && !seenPhi[x] {
+				seenPhi[x] = true
+				v = e
+				continue
+			}
+			// not on the path, or carried round unchanged: the value it was entered with
+			if e := w.initPhi(x, seenPhi[x]); e != nil && !seenPhi[x] || e != nil && e != v {
+				seenPhi[x] = true
+				v = e
+				continue
+			}
+		case *ssa.Extract:
+			if w.cont != nil && w.retvals != nil && x.Tuple == ssa.Value(w.cont) && x.Index < len(w.retvals) && w.retvals[x.Index] != nil {
+				v = w.retvals[x.Index]
+				continue
+			}
+		case *ssa.UnOp:
+			if x.Op != token.MUL {
+				return v
+			}
+			cell, ok := c19Cell(x.X).(*ssa.Alloc)
+			if !ok {
+				return v
+			}
+			if nv := w.cellAt(cell, x); nv != nil {
+				v = nv
+				continue
+			}
+		}
+		return v
+	}
+	return v
+}
+
+// initPhi: a loop-carried register whose block is not on the walked path and that no iteration going on to the
+// next result changes (dirty == false) still holds the value it was entered with from before the loop.
+func (w *c19Walker) initPhi(x *ssa.Phi, carried bool) ssa.Value {
+	if w.dirty == nil || w.dirty[x] || w.post == nil || !w.post[x.Block()] {
+		return nil
+	}
+	for _, pb := range w.path {
+		if pb == x.Block() && !carried {
+			return nil
+		}
+	}
+	var out ssa.Value
+	for i, p := range x.Block().Preds {
+		if w.post[p] || i >= len(x.Edges) {
+			continue
+		}
+		if out != nil && out != x.Edges[i] {
+			return nil
+		}
+		out = x.Edges[i]
+	}
+	return out
+}
+
+// holds: the whole value last stored on the walked path into local record al (a copy of a result kept in a local).
+func (w *c19Walker) holds(al *ssa.Alloc) ssa.Value {
+	if _, isStruct := al.Type().Underlying().(*types.Pointer).Elem().Underlying().(*types.Struct); !isStruct {
+		return nil
+	}
+	var last ssa.Value
+	for _, pb := range w.path {
+		for _, in := range pb.Instrs {
+			if st, ok := in.(*ssa.Store); ok && st.Addr == ssa.Value(al) {
+				last = st.Val
+			}
+		}
+	}
+	if last == nil {
+		return nil
+	}
+	return w.res(last)
+}
+
+// cellAt: the value variable cell holds when load ld executes on the walked path (nil: not known).
+func (w *c19Walker) cellAt(cell *ssa.Alloc, ld *ssa.UnOp) ssa.Value {
+	at := -1
+	for i, pb := range w.path {
+		if pb == ld.Block() {
+			at = i
+		}
+	}
+	if at < 0 {
+		return nil // computed before the walk started
+	}
+	var last ssa.Value
+	for i := 0; i <= at; i++ {
+		for _, in := range w.path[i].Instrs {
+			if i == at && in == ssa.Instruction(ld) {
+				break
+			}
+			if st, ok := in.(*ssa.Store); ok && c19Cell(st.Addr) == ssa.Value(cell) {
+				last = st.Val
+			}
+		}
+	}
+	if last != nil {
+		return last
+	}
+	return w.initVal(cell)
+}
+
+// initVal: the value a scalar cell holds at the start of the walk when no iteration that goes on to the next
+// result stores into it: its single store before the loop, or the zero value.
+func (w *c19Walker) initVal(cell *ssa.Alloc) ssa.Value {
+	if w.dirty == nil || w.dirty[cell] || cell.Referrers() == nil {
+		return nil
+	}
+	et := cell.Type().Underlying().(*types.Pointer).Elem()
+	switch et.Underlying().(type) {
+	case *types.Basic, *types.Pointer, *types.Interface, *types.Signature, *types.Slice, *types.Map, *types.Chan:
+	default:
+		return nil
+	}
+	var pre []ssa.Value
+	for _, ref := range *cell.Referrers() {
+		switch x := ref.(type) {
+		case *ssa.Store:
+			if x.Addr != ssa.Value(cell) {
+				return nil
+			}
+			if !w.post[x.Block()] {
+				pre = append(pre, x.Val)
+			}
+		case *ssa.UnOp, *ssa.DebugRef:
+		default:
+			return nil // captured or address taken: not followed
+		}
+	}
+	switch len(pre) {
+	case 0:
+		if b, ok := et.Underlying().(*types.Basic); ok {
+			switch {
+			case b.Info()&types.IsBoolean != 0:
+				return ssa.NewConst(constant.MakeBool(false), et)
+			case b.Info()&types.IsInteger != 0:
+				return ssa.NewConst(constant.MakeInt64(0), et)
+			}
+			return nil
+		}
+		return ssa.NewConst(nil, et)
+	case 1:
+		return pre[0]
+	}
+	return nil
 }
 
 // origins resolves v like c19Origins and replaces parameters of followed callees by the call's arguments.
@@ -1253,6 +1587,11 @@ func (w *c19Walker) eval(v ssa.Value, d int) (bool, bool) {
 	if w.pre != nil {
 		if b, ok := w.pre(w, v); ok {
 			return b, true
+		}
+	}
+	if r := w.res(v); r != nil && r != v {
+		if _, isBool := r.Type().Underlying().(*types.Basic); isBool {
+			return w.eval(r, d+1)
 		}
 	}
 	switch x := v.(type) {
@@ -1314,7 +1653,7 @@ func (w *c19Walker) nilness(v ssa.Value, d int) (isNil, known bool) {
 	if d > 6 {
 		return false, false
 	}
-	v = an.Unwrap(v)
+	v = w.res(v)
 	switch x := v.(type) {
 	case *ssa.Const:
 		if x.Value == nil {
@@ -1322,6 +1661,10 @@ func (w *c19Walker) nilness(v ssa.Value, d int) (isNil, known bool) {
 		}
 	case *ssa.Alloc, *ssa.MakeClosure, *ssa.MakeMap, *ssa.MakeSlice, *ssa.MakeChan, *ssa.Function, *ssa.FieldAddr, *ssa.IndexAddr:
 		return false, true
+	case *ssa.Call:
+		if c19ErrFn(x, "New") || an.Static("fmt.Errorf")(&x.Call) {
+			return false, true // a freshly made error
+		}
 	case *ssa.Phi:
 		if e := w.phiEdge(x); e != nil {
 			return w.nilness(e, d+1)
@@ -1442,6 +1785,17 @@ func (w *c19Walker) walk(b, from *ssa.BasicBlock, first bool) {
 	case *ssa.Jump:
 		w.walk(b.Succs[0], b, false)
 	case *ssa.Return:
+		if w.cont != nil && b.Parent() == w.contFn && w.retvals == nil {
+			vals := c19RetVals(t)
+			rv := make([]ssa.Value, len(vals))
+			for i, v := range vals {
+				rv[i] = w.res(v)
+			}
+			w.retvals = rv
+			w.walk(w.cont.Block(), b, true)
+			w.retvals = nil
+			return
+		}
 		w.out[w.ret(t, w)] = true
 	case *ssa.Panic:
 		w.out["panic"] = true
@@ -1528,10 +1882,11 @@ type c19Carrier struct {
 	phi   *ssa.Phi   // slice of results / pointer to a result kept in a loop-carried register (phi in the loop header)
 	cell  *ssa.Alloc // slice / pointer kept in a variable cell
 	ptr   bool       // phi / cell holds a pointer to a copy of a result
+	val   bool       // phi is the Result variable itself, kept in a loop-carried register
 }
 
 func (k *c19Carrier) same(o *c19Carrier) bool {
-	return k.alloc == o.alloc && k.phi == o.phi && k.cell == o.cell && k.ptr == o.ptr
+	return k.alloc == o.alloc && k.phi == o.phi && k.cell == o.cell && k.ptr == o.ptr && k.val == o.val
 }
 
 // c19ResultKey: key names field `name` of forkjoin.Result.
@@ -1679,17 +2034,47 @@ func (w *c19Walker) phiEdge(x *ssa.Phi) ssa.Value {
 
 // carrierOf recognises `return X.Output, X.Err` for a variable X that is kept across iterations.
 // status: "" recognised, "unknown" an Err field of some result kept in a form that is not followed, "none" otherwise.
-func (l c19Loop) carrierOf(vals []ssa.Value) (*c19Carrier, string) {
+func (l c19Loop) carrierOf(w *c19Walker, vals []ssa.Value) (*c19Carrier, string) {
+	// the record may have travelled as a whole value (returned by the function holding the loop, copied)
+	norm := func(b ssa.Value) ssa.Value {
+		if w != nil {
+			if rb := w.res(b); rb != nil {
+				b = rb
+			}
+			if al, isAl := b.(*ssa.Alloc); isAl {
+				if hv := w.holds(al); hv != nil {
+					b = hv
+				}
+			}
+		}
+		if ld, ok := b.(*ssa.UnOp); ok && ld.Op == token.MUL {
+			if al, ok := c19Cell(ld.X).(*ssa.Alloc); ok {
+				if _, isStruct := ld.Type().Underlying().(*types.Struct); isStruct {
+					return al
+				}
+			}
+		}
+		return b
+	}
 	kE, bE, okE := c19FieldRead(vals[1])
 	if !okE || !c19ResultKey(kE, "Err") {
 		return nil, "none"
 	}
+	bE = norm(bE)
 	kO, bO, okO := c19FieldRead(vals[0])
+	if okO {
+		bO = norm(bO)
+	}
 	if !okO || !c19ResultKey(kO, "Output") || !c19SameElem(bO, bE) {
 		return nil, "none"
 	}
 	if bE == l.elem {
 		return nil, "none"
+	}
+	if ph, ok := bE.(*ssa.Phi); ok && ph.Block() == l.hdr {
+		if _, isStruct := ph.Type().Underlying().(*types.Struct); isStruct {
+			return &c19Carrier{phi: ph, val: true}, ""
+		}
 	}
 	switch x := bE.(type) {
 	case *ssa.Const:
@@ -1774,7 +2159,10 @@ func (l c19Loop) ptrHoldsCur(v ssa.Value, w *c19Walker, d int) bool {
 	if !l.copyOfCur(v) {
 		return false
 	}
-	// the copy was made in this iteration
+	// the copy was made in this iteration (the receive block itself opens every iteration)
+	if v.(*ssa.Alloc).Block() == l.hdr {
+		return true
+	}
 	for _, pb := range w.path {
 		if pb == v.(*ssa.Alloc).Block() {
 			return true
@@ -1814,6 +2202,10 @@ func (l c19Loop) recorded(k *c19Carrier, w *c19Walker) bool {
 		latch := w.path[len(w.path)-1]
 		for i, p := range l.hdr.Preds {
 			if p == latch && i < len(k.phi.Edges) {
+				if k.val {
+					r := w.res(k.phi.Edges[i])
+					return r == l.elem || (r != nil && c19Only(r, l.elem))
+				}
 				if k.ptr {
 					return l.ptrHoldsCur(k.phi.Edges[i], w, 0)
 				}
@@ -1838,14 +2230,46 @@ func c19Y2(c *rt.Ctx) {
 	run := s.run
 	l := c19ResultLoop(c, s)
 
-	// atoms: 0 ctx.Err()==nil, 1 res.Err==nil, 2 isSuccessFunc(res.Output)
+	var bind map[*ssa.Parameter]ssa.Value
+	post := an.ReachBlocks(l.hdr, nil)
+	if l.call != nil {
+		bind = map[*ssa.Parameter]ssa.Value{}
+		for i, p := range l.fn.Params {
+			bind[p] = l.call.Call.Args[i]
+		}
+		s.loopBind = bind
+		for b := range an.ReachBlocks(l.call.Block(), nil) {
+			post[b] = true
+		}
+	}
+	newWalker := func(w *c19Walker) *c19Walker {
+		w.post = post
+		if l.call != nil {
+			w.cont, w.contFn = l.call, l.fn
+			w.bind = map[*ssa.Parameter]ssa.Value{}
+			for k, v := range bind {
+				w.bind[k] = v
+			}
+		}
+		return w
+	}
+
+	// atoms: 0 ctx.Err()==nil, 1 res.Err==nil, 2 isSuccessFunc(res.Output), 3 the success predicate is nil (accept all)
+	used3 := false
 	atom := func(w *c19Walker, v ssa.Value) (int, bool, bool) {
 		if x, neg, ok := c19NilCmp(v); ok {
+			if rx := w.res(x); rx != nil {
+				x = rx
+			}
 			if s.isCtxErr(w, x) {
 				return 0, neg, true
 			}
 			if l.resField(w, x, "Err") {
 				return 1, neg, true
+			}
+			if _, isFn := x.Type().Underlying().(*types.Signature); isFn && s.only(w, x, s.isSucces) {
+				used3 = true
+				return 3, neg, true
 			}
 			return 0, false, false
 		}
@@ -1858,9 +2282,41 @@ func c19Y2(c *rt.Ctx) {
 
 	// static: no return before the loop, the code after the loop is entered from the header only
 	for _, r := range c19Returns(run) {
-		if !l.inLoop(r.Block()) && !l.after(r.Block()) {
+		start := l.hdr
+		if l.call != nil {
+			start = l.call.Block()
+		}
+		if !an.CanReach(start, r.Block(), nil) {
 			c.Bad("runForkJoin return before the result loop", posOf(r), "runForkJoin returns before looking at any node's result")
 		}
+	}
+
+	// ---- variables no continuing iteration stores into keep their value from before the loop
+	dirty := map[ssa.Value]bool{}
+	for i := 0; i < 16; i++ {
+		val := []bool{i&1 != 0, i&2 != 0, i&4 != 0, i&8 != 0}
+		w := newWalker(&c19Walker{atom: atom, val: val, ret: func(*ssa.Return, *c19Walker) string { return "" },
+			stop: func(b *ssa.BasicBlock, w *c19Walker) (string, bool) {
+				if b != l.hdr {
+					return "", false
+				}
+				w.from[l.hdr] = w.path[len(w.path)-1]
+				for _, pb := range append(append([]*ssa.BasicBlock{}, w.path...), l.hdr) {
+					for _, in := range pb.Instrs {
+						switch x := in.(type) {
+						case *ssa.Store:
+							dirty[c19Cell(x.Addr)] = true
+						case *ssa.Phi:
+							if e := w.phiEdge(x); e == nil || w.res(e) != ssa.Value(x) {
+								dirty[x] = true
+							}
+						}
+					}
+				}
+				delete(w.from, l.hdr)
+				return "", true
+			}})
+		w.run(l.body, l.hdr)
 	}
 
 	// ---- after the loop
@@ -1871,6 +2327,9 @@ func c19Y2(c *rt.Ctx) {
 		if len(vals) != 2 {
 			return "other"
 		}
+		for i := range vals {
+			vals[i] = w.res(vals[i])
+		}
 		switch {
 		case s.isCtxErr(nil, vals[1]):
 			ctxPos = posOf(r)
@@ -1878,7 +2337,7 @@ func c19Y2(c *rt.Ctx) {
 		case an.IsNilConst(vals[1]):
 			return "nil-error"
 		}
-		k, st := l.carrierOf(vals)
+		k, st := l.carrierOf(w, vals)
 		switch {
 		case k != nil && (carrier == nil || carrier.same(k)):
 			carrier, failPos = k, posOf(r)
@@ -1906,10 +2365,10 @@ func c19Y2(c *rt.Ctx) {
 	}
 	afterOut := map[bool]map[string]bool{}
 	for _, ctxNil := range []bool{true, false} {
-		w := &c19Walker{atom: ctxAtom, val: []bool{ctxNil, false, false}, ret: retAfter,
+		w := newWalker(&c19Walker{atom: ctxAtom, val: []bool{ctxNil, false, false, false}, ret: retAfter, dirty: dirty,
 			stop: func(b *ssa.BasicBlock, _ *c19Walker) (string, bool) {
 				return "re-enters loop", b == l.hdr || l.inLoop(b)
-			}}
+			}})
 		w.run(l.exit, l.hdr)
 		afterOut[ctxNil] = w.out
 	}
@@ -1950,6 +2409,9 @@ func c19Y2(c *rt.Ctx) {
 		if len(vals) != 2 {
 			return "other return"
 		}
+		for i := range vals {
+			vals[i] = w.res(vals[i])
+		}
 		switch {
 		case an.IsNilConst(vals[1]) && l.resField(w, vals[0], "Output"):
 			succPos = posOf(r)
@@ -1977,9 +2439,9 @@ func c19Y2(c *rt.Ctx) {
 	}
 	var rows []row
 	unknown := map[*ssa.If]bool{}
-	for i := 0; i < 8; i++ {
-		val := []bool{i&1 != 0, i&2 != 0, i&4 != 0}
-		w := &c19Walker{atom: atom, val: val, ret: retIn, stop: stopIn, unknown: unknown}
+	for i := 0; i < 16; i++ {
+		val := []bool{i&1 != 0, i&2 != 0, i&4 != 0, i&8 != 0}
+		w := newWalker(&c19Walker{atom: atom, val: val, ret: retIn, stop: stopIn, unknown: unknown, dirty: dirty})
 		w.run(l.body, l.hdr)
 		// the body block itself is part of the iteration: start is walked from its terminator, which is right
 		rows = append(rows, row{val, w.out})
@@ -1991,7 +2453,11 @@ func c19Y2(c *rt.Ctx) {
 			}
 			return e
 		}
-		return f(v[0], "ctx live", "ctx cancelled") + ", " + f(v[1], "res.Err == nil", "res.Err != nil") + ", " + f(v[2], "isSuccessFunc true", "isSuccessFunc false")
+		d := f(v[0], "ctx live", "ctx cancelled") + ", " + f(v[1], "res.Err == nil", "res.Err != nil") + ", " + f(v[2], "isSuccessFunc true", "isSuccessFunc false")
+		if used3 {
+			d += ", " + f(v[3], "isSuccessFunc is nil", "isSuccessFunc is set")
+		}
+		return d
 	}
 	loopPos := posOf(l.hdr.Instrs[0])
 	sOK, sWhy := true, ""
@@ -2007,7 +2473,7 @@ func c19Y2(c *rt.Ctx) {
 			if !c19Is1(r.out, "ctx") {
 				cOK, cWhy = false, "for a result received with ["+desc(r.val)+"] the loop body yields "+c19Set(r.out)+" instead of returning ctx.Err()"
 			}
-		case r.val[1] && r.val[2]:
+		case r.val[1] && (r.val[2] || (used3 && r.val[3])):
 			if !c19Is1(r.out, "success") {
 				sOK, sWhy = false, "for a result with ["+desc(r.val)+"] the loop body yields "+c19Set(r.out)+
 					" instead of returning res.Output, nil at once: the call waits for the remaining (slow or hung) nodes"
@@ -2035,7 +2501,7 @@ func c19Y2(c *rt.Ctx) {
 	c.Check("runForkJoin success return", succPos, sOK, sWhy)
 	c.Check("runForkJoin in-loop context test", loopPos, cOK, cWhy)
 	c.Check("runForkJoin in-loop failure handling", loopPos, fOK, fWhy)
-	c.Good("runForkJoin result loop", loopPos, fmt.Sprintf("8 valuations of (ctx, res.Err, isSuccessFunc) explored, %d other conditions followed on both edges", len(unknown)))
+	c.Good("runForkJoin result loop", loopPos, fmt.Sprintf("16 valuations of (ctx, res.Err, isSuccessFunc, predicate nil) explored, %d other conditions followed on both edges", len(unknown)))
 }
 
 func c19Y3(c *rt.Ctx) {
@@ -2201,19 +2667,47 @@ func c19Y3(c *rt.Ctx) {
 	rOK, rWhy := true, ""
 	f0, f1 := c19Extract(F, 0), c19Extract(F, 1)
 	nF := 0
+	var chk func(vals []ssa.Value, at *ssa.BasicBlock, d int)
+	chk = func(vals []ssa.Value, at *ssa.BasicBlock, d int) {
+		if B.Dominates(at) {
+			nF++
+			if f0 == nil || f1 == nil || !c19Only(vals[0], f0) || !c19Only(vals[1], f1) {
+				rOK, rWhy = false, "after the fallback run provide does not return the fallback run's output and error"
+			}
+			return
+		}
+		// values merged from several paths are decided per incoming edge
+		var blk *ssa.BasicBlock
+		if d < 4 {
+			for _, v := range vals {
+				if ph, ok := an.Unwrap(v).(*ssa.Phi); ok && len(ph.Edges) > 1 && (blk == nil || blk.Dominates(ph.Block())) {
+					blk = ph.Block()
+				}
+			}
+		}
+		if blk != nil {
+			for i, pred := range blk.Preds {
+				sub := make([]ssa.Value, len(vals))
+				for j, v := range vals {
+					sub[j] = v
+					if ph, ok := an.Unwrap(v).(*ssa.Phi); ok && ph.Block() == blk && i < len(ph.Edges) {
+						sub[j] = ph.Edges[i]
+					}
+				}
+				chk(sub, pred, d+1)
+			}
+			return
+		}
+		if out == nil || !c19Only(vals[0], out) || !c19Only(vals[1], err) {
+			rOK, rWhy = false, "without a fallback run provide does not return the primary run's output and error"
+		}
+	}
 	for _, r := range an.Returns(p) {
 		vals := c19RetVals(r)
 		if len(vals) != 2 {
 			c.Bail("provide does not return (O, error)")
 		}
-		if B.Dominates(r.Block()) {
-			nF++
-			if f0 == nil || f1 == nil || !c19Only(vals[0], f0) || !c19Only(vals[1], f1) {
-				rOK, rWhy = false, "after the fallback run provide does not return the fallback run's output and error"
-			}
-		} else if out == nil || !c19Only(vals[0], out) || !c19Only(vals[1], err) {
-			rOK, rWhy = false, "without a fallback run provide does not return the primary run's output and error"
-		}
+		chk(vals, r.Block(), 0)
 	}
 	if nF == 0 {
 		rOK, rWhy = false, "no return behind the fallback run"
@@ -2243,23 +2737,29 @@ func c19Submit_(c *rt.Ctx, s *c19Shape) {
 		good, why = false, "submit does not hand its context to provide"
 	}
 	// the work adapter calls submit's work with the node it was given and returns its error
-	var w *ssa.Function
-	switch x := an.Unwrap(a[3]).(type) {
-	case *ssa.MakeClosure:
-		w, _ = x.Fn.(*ssa.Function)
-	case *ssa.Function:
-		w = x
+	w, wrecv := c19FuncOf(a[3])
+	var argsP *ssa.Parameter
+	if w != nil {
+		argsP = c19ArgsParam(w)
 	}
-	if w == nil || w.Parent() != sub || len(w.Params) != 2 {
-		good, why = false, "the work function handed to provide is not an adapter literal of submit"
+	if w == nil || len(w.Blocks) == 0 || argsP == nil || !(w.Parent() == sub || (w.Parent() == nil && w.Pkg == sub.Pkg && w.Synthetic == "")) {
+		c.Unsure("submit delegates to provide", pc.Pos(), "the work function handed to provide is not an adapter (literal of submit, function or method of the package) that is followed")
+		return
 	} else {
+		// submit's work function as seen inside the adapter: captured, or the bound receiver of a method value
+		isWork := func(v ssa.Value) bool {
+			if c19Only(v, sub.Params[3]) {
+				return true
+			}
+			return wrecv != nil && len(w.Params) > 0 && c19Only(v, w.Params[0]) && c19Only(wrecv, sub.Params[3])
+		}
 		var wc []*ssa.Call
 		for _, in := range an.Instrs(w, true) {
-			if call, ok := in.(*ssa.Call); ok && !call.Call.IsInvoke() && call.Call.StaticCallee() == nil && c19Only(call.Call.Value, sub.Params[3]) {
+			if call, ok := in.(*ssa.Call); ok && !call.Call.IsInvoke() && call.Call.StaticCallee() == nil && isWork(call.Call.Value) {
 				wc = append(wc, call)
 			}
 		}
-		if len(wc) != 1 || wc[0].Parent() != w || len(wc[0].Call.Args) != 2 || !c19Only(wc[0].Call.Args[1], w.Params[1]) {
+		if len(wc) != 1 || wc[0].Parent() != w || len(wc[0].Call.Args) != 2 || !c19Only(wc[0].Call.Args[1], argsP) {
 			good, why = false, "the adapter does not call submit's work function exactly once with the node arguments it received"
 		} else {
 			for _, r := range c19Returns(w) {
@@ -2321,10 +2821,30 @@ func c19Y4(c *rt.Ctx) {
 	}
 	sort.Slice(methods, func(i, j int) bool { return methods[i].Name() < methods[j].Name() })
 
+	// Methods of multi are beacon API entry points when they can be reached from outside the package: exported
+	// methods (Client interface, or any other interface satisfied structurally). Unexported methods that make no
+	// provide/submit call are internal helpers: they may read the node lists only when every use of them lies in a
+	// listed node-management helper (or in another such confined helper) - call-graph confinement.
+	internal := map[*ssa.Function]bool{}
+	delegates := map[*ssa.Function]bool{}
+	for _, m := range methods {
+		if _, listed := c19Helpers[m.Name()]; !listed && !token.IsExported(m.Name()) &&
+			len(an.Calls(m, an.Static(c19Provide, c19Submit), true)) == 0 {
+			internal[m] = true
+		}
+	}
+	var deferred []*ssa.Function
 	for _, m := range methods {
 		name := "multi." + m.Name()
 		if why, ok := c19Helpers[m.Name()]; ok {
 			c.Good(name+" (node-management helper)", m.Pos(), why)
+			continue
+		}
+		if internal[m] {
+			continue
+		}
+		if !token.IsExported(m.Name()) {
+			deferred = append(deferred, m) // an unexported method with a provide/submit call: fine as a verified delegate
 			continue
 		}
 		st, why, delegate := c19APIMethod(m, isList)
@@ -2335,6 +2855,7 @@ func c19Y4(c *rt.Ctx) {
 				for _, g := range an.Closure(delegate) {
 					owned[g] = true
 				}
+				delegates[delegate] = true
 				why = "through " + an.FuncName(delegate)
 			}
 			c.Good(name+" via provide/submit", m.Pos(), why)
@@ -2342,6 +2863,67 @@ func c19Y4(c *rt.Ctx) {
 			c.Unsure(name+" via provide/submit", m.Pos(), why)
 		default:
 			c.Bad(name+" via provide/submit", m.Pos(), why)
+		}
+	}
+	for _, m := range deferred {
+		if delegates[m] {
+			c.Good("multi."+m.Name()+" (provide/submit delegate of API methods)", m.Pos(), "")
+		} else {
+			c.Unsure("multi."+m.Name()+" via provide/submit", m.Pos(), "unexported method with a provide/submit call that no API method was found to delegate to")
+		}
+	}
+	// confinement of the internal helpers
+	root := func(f *ssa.Function) *ssa.Function {
+		for f.Parent() != nil {
+			f = f.Parent()
+		}
+		return an.Orig(f)
+	}
+	isMethod := map[*ssa.Function]bool{}
+	for _, m := range methods {
+		isMethod[m] = true
+	}
+	for _, m := range methods {
+		if !internal[m] {
+			continue
+		}
+		name := "multi." + m.Name() + " (internal helper)"
+		if !c19ListUse(m, isList) {
+			c.Good(name, m.Pos(), "does not read the node lists")
+			continue
+		}
+		st, why := rt.OK, ""
+		for _, fn := range an.PkgFuncs(c.SSAPkg(c19Pkg)) {
+			for _, in := range an.Instrs(fn, false) {
+				uses := false
+				for _, op := range an.Operands(in) {
+					if f, ok := op.(*ssa.Function); ok && an.Orig(f) == m {
+						uses = true
+					}
+					if mc, ok := op.(*ssa.MakeClosure); ok {
+						if f, ok := mc.Fn.(*ssa.Function); ok {
+							if obj, ok := f.Object().(*types.Func); ok && f.Synthetic != "" && f.Prog.FuncValue(obj) == m {
+								uses = true
+							}
+						}
+					}
+				}
+				if !uses {
+					continue
+				}
+				r := root(fn)
+				_, listed := c19Helpers[r.Name()]
+				switch {
+				case isMethod[r] && listed, isMethod[r] && internal[r]:
+				default:
+					st, why = rt.Violation, "reads the node lists directly and is used by "+an.FuncName(fn)+", which is not one of the listed node-management helpers: nodes are reached outside the fork-join/fallback mechanism"
+				}
+			}
+		}
+		if st == rt.OK {
+			c.Good(name, m.Pos(), "reads the node lists; used only by node-management helpers")
+		} else {
+			c.Bad(name, m.Pos(), why)
 		}
 	}
 
@@ -2487,20 +3069,52 @@ func c19ReturnsOutcome(fn *ssa.Function, call *ssa.Call, src c19Src, what string
 	return rt.OK, ""
 }
 
+// c19FuncOf resolves a function value to its function: a literal, a package function, or (for a method value
+// `x.m`) the method itself together with the bound receiver.
+func c19FuncOf(v ssa.Value) (fn *ssa.Function, recv ssa.Value) {
+	switch x := an.Resolve(v).(type) {
+	case *ssa.MakeClosure:
+		f, _ := x.Fn.(*ssa.Function)
+		if f != nil && strings.HasPrefix(f.Synthetic, "bound method wrapper") && len(x.Bindings) == 1 {
+			if obj, ok := f.Object().(*types.Func); ok && f.Prog != nil {
+				if real := f.Prog.FuncValue(obj); real != nil {
+					return real, x.Bindings[0]
+				}
+			}
+		}
+		return f, nil
+	case *ssa.Function:
+		return x, nil
+	}
+	return nil, nil
+}
+
+// c19ArgsParam returns the single parameter of w of type provideArgs.
+func c19ArgsParam(w *ssa.Function) *ssa.Parameter {
+	var out *ssa.Parameter
+	for _, p := range w.Params {
+		if an.TypeName(p.Type()) == c19Pkg+".provideArgs" {
+			if out != nil {
+				return nil
+			}
+			out = p
+		}
+	}
+	return out
+}
+
 // c19WorkFn decides the obligation on the work function wv handed to provide/submit: a function of the package
 // (a literal of one of the owners, or a package-level function) that calls the method `name` of args.client
 // exactly once per execution and returns its outcome.
 func c19WorkFn(wv ssa.Value, owners []*ssa.Function, name string) (string, string) {
 	bad := func(why string) (string, string) { return rt.Violation, why }
 	unsure := func(why string) (string, string) { return rt.Undecided, why }
-	var w *ssa.Function
-	switch x := an.Resolve(wv).(type) {
-	case *ssa.MakeClosure:
-		w, _ = x.Fn.(*ssa.Function)
-	case *ssa.Function:
-		w = x
+	w, _ := c19FuncOf(wv)
+	var argsP *ssa.Parameter
+	if w != nil {
+		argsP = c19ArgsParam(w)
 	}
-	if w == nil || len(w.Blocks) == 0 || len(w.Params) != 2 {
+	if w == nil || len(w.Blocks) == 0 || argsP == nil {
 		return unsure("the work function handed to provide/submit cannot be resolved to a function taking (ctx, provideArgs)")
 	}
 	owned := w.Parent() == nil && w.Pkg == owners[0].Pkg && w.Synthetic == ""
@@ -2540,7 +3154,7 @@ func c19WorkFn(wv ssa.Value, owners []*ssa.Function, name string) (string, strin
 		if call.Call.Method.Name() != name {
 			return bad("the work function calls " + call.Call.Method.Name() + " instead of the same-named method " + name)
 		}
-		if k, base, ok := c19FieldRead(call.Call.Value); !ok || k != c19ArgCl || !c19HoldsOnly(base, w.Params[1]) {
+		if k, base, ok := c19FieldRead(call.Call.Value); !ok || k != c19ArgCl || !c19HoldsOnly(base, argsP) {
 			return bad("the beacon node called is not args.client of the work function's own argument")
 		}
 		nres := call.Call.Signature().Results().Len()
@@ -2615,7 +3229,7 @@ func c19APIMethod(m *ssa.Function, isList func(string) bool) (st, why string, de
 		}
 		if len(dcs) == 1 {
 			dc, h := dcs[0], an.Orig(dcs[0].Call.StaticCallee())
-			if len(h.Params) != len(dc.Call.Args) || h.Signature.Recv() != nil {
+			if len(h.Params) != len(dc.Call.Args) {
 				return rt.Undecided, "the method hands its receiver to " + an.FuncName(h) + ", which is not followed", nil
 			}
 			pc, st, why := c19Frame(h, h.Params[idxs[0]], isList)
